@@ -2,6 +2,8 @@ use super::{CurveProjective, PrimeField, PrimeFieldRepr};
 
 /// Replaces the contents of `table` with a w-NAF window table for the given window size.
 pub(crate) fn wnaf_table<G: CurveProjective>(table: &mut Vec<G>, mut base: G, window: usize) {
+    #[cfg(feature = "verif")]
+    ::verif_probe::probe(::verif_probe::WNAF_TABLE);
     table.truncate(0);
     table.reserve(1 << (window - 1));
 
@@ -16,6 +18,8 @@ pub(crate) fn wnaf_table<G: CurveProjective>(table: &mut Vec<G>, mut base: G, wi
 
 /// Replaces the contents of `wnaf` with the w-NAF representation of a scalar.
 pub(crate) fn wnaf_form<S: PrimeFieldRepr>(wnaf: &mut Vec<i64>, mut c: S, window: usize) {
+    #[cfg(feature = "verif")]
+    ::verif_probe::probe(::verif_probe::WNAF_FORM);
     wnaf.truncate(0);
 
     while !c.is_zero() {
@@ -47,6 +51,8 @@ pub(crate) fn wnaf_form<S: PrimeFieldRepr>(wnaf: &mut Vec<i64>, mut c: S, window
 /// This function must be provided a `table` and `wnaf` that were constructed with
 /// the same window size; otherwise, it may panic or produce invalid results.
 pub(crate) fn wnaf_exp<G: CurveProjective>(table: &[G], wnaf: &[i64]) -> G {
+    #[cfg(feature = "verif")]
+    ::verif_probe::probe(::verif_probe::WNAF_EXP);
     let mut result = G::zero();
 
     let mut found_one = false;
